@@ -12,6 +12,7 @@ import (
 	"golang.org/x/tools/go/types/typeutil"
 
 	"verif/internal/load"
+	"verif/internal/ceval"
 	"verif/internal/report"
 )
 
@@ -356,8 +357,31 @@ func ByteClasses(p *load.Program, refs ...bytePredRef) *report.RuleResult {
 		res.Count("predicates", 1)
 		var diff []string
 		undec := ""
+		var cev *ceval.Interp
 		for b := 0; b < 256; b++ {
 			got, err := evalBytePred(pk, fd, byte(b))
+			if err != nil {
+				// the fragment knows comparison chains; anything else (lookup tables built at start-up, bit classes) is
+				// evaluated from source by the general evaluator
+				if cev == nil {
+					cev = ceval.New(pk)
+					cev.Budget = 200000
+				}
+				out, st, why := cev.Call(fd, nil, []interface{}{int64(b)})
+				if v, ok := func() (bool, bool) {
+					if st != ceval.OK || len(out) != 1 {
+						return false, false
+					}
+					v, ok := out[0].(bool)
+					return v, ok
+				}(); ok {
+					got, err = v, nil
+				} else if st == ceval.Panic {
+					err = fmt.Errorf("panics on byte 0x%02x: %s", b, why)
+				} else if why != "" {
+					err = fmt.Errorf("%v; general evaluator: %s", err, why)
+				}
+			}
 			if err != nil {
 				undec = err.Error()
 				break
